@@ -30,6 +30,22 @@ fn table_len(m: &LibMappings<u32>) -> usize {
     format!("{m:?}").matches("Mapping {").count()
 }
 
+/// `ents <start>:<end>:<rel>:<value>*` from the derived `Debug` output (field names are not relied upon: the four
+/// integers of every `Mapping { .. }` in declaration order)
+fn table_dump(m: &LibMappings<u32>) -> String {
+    let d = format!("{m:?}");
+    let mut line = String::from("ents");
+    for chunk in d.split("Mapping {").skip(1) {
+        let body = chunk.split('}').next().unwrap_or("");
+        let nums: Vec<&str> = body.split(|c: char| !c.is_ascii_digit()).filter(|s| !s.is_empty()).collect();
+        if nums.len() != 4 {
+            return "ents err:debug-format".to_string();
+        }
+        line.push_str(&format!(" {}:{}:{}:{}", nums[0], nums[1], nums[2], nums[3]));
+    }
+    line
+}
+
 fn exec_table(ops: &[String], stats: &mut Stats) -> Vec<String> {
     let mut out = Vec::new();
     let mut m: LibMappings<u32> = LibMappings::new();
@@ -79,6 +95,10 @@ fn exec_table(ops: &[String], stats: &mut Stats) -> Vec<String> {
                 m.clear();
                 stats.bump("t_clear");
                 out.push("ok".into());
+            }
+            Some("dump") => {
+                stats.bump(&format!("t_dump_entries_{}", table_len(&m).min(5)));
+                out.push(table_dump(&m));
             }
             Some("probe") => {
                 let mut line = String::from("res");
@@ -371,6 +391,7 @@ fn enum_table(grid: &[u64], len: usize, tag: &str, out: &mut Vec<Case>) {
                 _ => ops.push("clear".to_string()),
             }
             ops.push(probe.clone());
+            ops.push("dump".to_string());
         }
         let name = format!("{tag}{len}-{}", idx.iter().map(|c| format!("{c:x}.")).collect::<String>());
         out.push(Case { name, ops });
@@ -455,7 +476,12 @@ fn boundary_cases() -> Vec<Case> {
     let mut v = Vec::new();
     let mut t = |name: &str, body: &[&str]| {
         let mut ops = vec!["mode table".to_string()];
-        ops.extend(body.iter().map(|s| s.to_string()));
+        for s in body {
+            ops.push(s.to_string());
+            if !s.starts_with("probe") {
+                ops.push("dump".to_string());
+            }
+        }
         v.push(Case { name: name.to_string(), ops });
     };
     // the repository's own unit test
@@ -596,7 +622,7 @@ fn gen_table(rng: &mut Rng, fam: Family) -> Vec<String> {
     let grid = make_grid(rng, fam);
     let base = grid[0];
     let n_ops = match fam {
-        Family::Long => rng.range(80, 250),
+        Family::Long => rng.range(60, 160),
         _ => rng.range(2, 30),
     };
     let mut ops = vec!["mode table".to_string()];
@@ -675,6 +701,9 @@ fn gen_table(rng: &mut Rng, fam: Family) -> Vec<String> {
             }
         }
         ops.push(probe_line(&probes));
+        if fam != Family::Long || k % 8 == 0 || k + 1 == n_ops {
+            ops.push("dump".to_string());
+        }
     }
     ops
 }
